@@ -1,6 +1,7 @@
 package main
 
 import (
+	"encoding/json"
 	"errors"
 	"fmt"
 	"sort"
@@ -12,12 +13,16 @@ import (
 	dxclient "github.com/hyperledger/aries-framework-go/pkg/client/didexchange"
 	lcclient "github.com/hyperledger/aries-framework-go/pkg/client/legacyconnection"
 	oobclient "github.com/hyperledger/aries-framework-go/pkg/client/outofband"
+	oob2client "github.com/hyperledger/aries-framework-go/pkg/client/outofbandv2"
 	commonmodel "github.com/hyperledger/aries-framework-go/pkg/common/model"
+	cryptoapi "github.com/hyperledger/aries-framework-go/pkg/crypto"
 	"github.com/hyperledger/aries-framework-go/pkg/didcomm/common/service"
+	"github.com/hyperledger/aries-framework-go/pkg/didcomm/dispatcher"
 	"github.com/hyperledger/aries-framework-go/pkg/didcomm/messaging/msghandler"
 	"github.com/hyperledger/aries-framework-go/pkg/didcomm/transport"
 	"github.com/hyperledger/aries-framework-go/pkg/doc/did"
 	"github.com/hyperledger/aries-framework-go/pkg/framework/aries"
+	ariesapi "github.com/hyperledger/aries-framework-go/pkg/framework/aries/api"
 	vdrapi "github.com/hyperledger/aries-framework-go/pkg/framework/aries/api/vdr"
 	"github.com/hyperledger/aries-framework-go/pkg/framework/context"
 	"github.com/hyperledger/aries-framework-go/pkg/kms"
@@ -62,6 +67,7 @@ type Agent struct {
 	dx       *dxclient.Client
 	lc       *lcclient.Client
 	oob      *oobclient.Client
+	oob2     *oob2client.Client
 	lookup   *connection.Lookup
 
 	mu      sync.Mutex
@@ -80,6 +86,61 @@ type Agent struct {
 }
 
 const basicType = "https://didcomm.org/c10verif/1.0/ping"
+
+// pingV2Type is the same as a DIDComm v2 message: v2 messages are dispatched to protocol services only.
+const pingV2Type = "https://didcomm.org/c10verif/2.0/ping"
+
+type ping2Svc struct{ a *Agent }
+
+func (p *ping2Svc) Name() string                 { return "c10ping2" }
+func (p *ping2Svc) Accept(t string) bool         { return t == pingV2Type }
+func (p *ping2Svc) Initialize(interface{}) error { return nil }
+func (p *ping2Svc) HandleOutbound(service.DIDCommMsg, string, string) (string, error) {
+	return "", errors.New("not implemented")
+}
+
+func (p *ping2Svc) HandleInbound(msg service.DIDCommMsg, ctx service.DIDCommContext) (string, error) {
+	p.a.mu.Lock()
+	p.a.handled = append(p.a.handled, Handled{MsgID: msg.ID(), MyDID: ctx.MyDID(), TheirDID: ctx.TheirDID()})
+	p.a.cond.Broadcast()
+	p.a.mu.Unlock()
+
+	return "", nil
+}
+
+// PublishDIDv2 makes a public DID with a DIDComm v2 service and a key agreement key of the agent's KMS.
+func (a *Agent) PublishDIDv2(id string) (*did.Doc, error) {
+	_, pub, err := a.ctx.KMS().CreateAndExportPubKeyBytes(kms.ED25519Type)
+	if err != nil {
+		return nil, err
+	}
+
+	_, kab, err := a.ctx.KMS().CreateAndExportPubKeyBytes(kms.X25519ECDHKWType)
+	if err != nil {
+		return nil, err
+	}
+
+	ka := &cryptoapi.PublicKey{}
+	if err := json.Unmarshal(kab, ka); err != nil {
+		return nil, err
+	}
+
+	vm := did.NewVerificationMethodFromBytes(id+"#key-1", "Ed25519VerificationKey2018", id, pub)
+	kavm := did.NewVerificationMethodFromBytes(id+"#key-2", "X25519KeyAgreementKey2019", id, ka.X)
+	doc := &did.Doc{
+		Context:            []string{"https://www.w3.org/ns/did/v1"},
+		ID:                 id,
+		VerificationMethod: []did.VerificationMethod{*vm, *kavm},
+		Authentication:     []did.Verification{{VerificationMethod: *vm, Relationship: did.Authentication}},
+		KeyAgreement:       []did.Verification{{VerificationMethod: *kavm, Relationship: did.KeyAgreement}},
+		Service: []did.Service{{ID: id + "#didcomm", Type: "DIDCommMessaging", Priority: 0, RecipientKeys: []string{id + "#key-2"},
+			ServiceEndpoint: commonmodel.NewDIDCommV2Endpoint([]commonmodel.DIDCommV2Endpoint{{URI: a.Endpoint, Accept: []string{"didcomm/v2"}}})}},
+	}
+
+	_, err = a.net.pub.Create(doc)
+
+	return doc, err
+}
 
 type pingSvc struct{ a *Agent }
 
@@ -229,6 +290,9 @@ func (a *Agent) build() error {
 		aries.WithOutboundTransports(&memOutbound{net: n, from: a.Name}),
 		aries.WithMessageServiceProvider(a.reg),
 		aries.WithVDR(n.pub),
+		aries.WithProtocols(ariesapi.ProtocolSvcCreator{Create: func(ariesapi.Provider) (dispatcher.ProtocolService, error) {
+			return &ping2Svc{a}, nil
+		}}),
 	}
 
 	if cfg.KeyType != "" {
@@ -268,6 +332,11 @@ func (a *Agent) build() error {
 		return err
 	}
 
+	oob2, err := oob2client.New(ctx)
+	if err != nil {
+		return err
+	}
+
 	lookup, err := connection.NewLookup(ctx)
 	if err != nil {
 		return err
@@ -298,7 +367,7 @@ func (a *Agent) build() error {
 	}
 
 	n.mu.Lock()
-	a.fw, a.ctx, a.dx, a.lc, a.oob, a.lookup, a.inbound = fw, ctx, dx, lc, oob, lookup, inbound
+	a.fw, a.ctx, a.dx, a.lc, a.oob, a.oob2, a.lookup, a.inbound = fw, ctx, dx, lc, oob, oob2, lookup, inbound
 	n.mu.Unlock()
 
 	return nil
